@@ -606,7 +606,12 @@ func (v *Visitor) visit(s *df.AnalyzerState, entrypoint *df.CallNodeArg) error {
 
 			closureNode := graphNode.ParentNode()
 			if closureNode.ClosureSummary == nil {
-				closureNode.ClosureSummary = df.BuildSummary(s, closureNode.Instr().Fn.(*ssa.Function))
+				closureFn := closureNode.Instr().Fn.(*ssa.Function)
+				if s.FlowGraph.Summaries[closureFn] == nil && !s.IsReachableFunction(closureFn) {
+					// the closure is created but never called: it has no summary and nothing can flow through it
+					break
+				}
+				closureNode.ClosureSummary = df.BuildSummary(s, closureFn)
 				logger.Tracef("closure summary parent: %v\n", closureNode.ClosureSummary.Parent)
 			}
 
